@@ -32,14 +32,19 @@ let parse_opts (t : string list) : gopts * n list =
        | _ -> raise (Bad "opts F"))
   | _ -> raise (Bad "opts")
 
-(* E code D n {ep ok}*n R call W ms *)
-let parse_outs (t : string list) : gout =
+(* E code D n {ep ok}*n R call W ms [V code D n {ep ok}*n]   (V...: second update of a UC line) *)
+let parse_outs (t : string list) : gout * gout option =
+  let rec pairs = function a :: b :: r -> (ion a, b <> "0") :: pairs r | _ -> [] in
   match t with
   | "E" :: c :: "D" :: n :: r ->
       let (ds, rest) = take_n (2 * int_of_string n) r in
-      let rec pairs = function a :: b :: r -> (ion a, b <> "0") :: pairs r | _ -> [] in
+      let o1 call = { og_err = ioz c; og_dials = pairs ds; og_call = ioz call } in
       (match rest with
-       | "R" :: call :: "W" :: _ :: [] -> { og_err = ioz c; og_dials = pairs ds; og_call = ioz call }
+       | "R" :: call :: "W" :: _ :: [] -> (o1 call, None)
+       | "R" :: call :: "W" :: _ :: "V" :: c2 :: "D" :: n2 :: r2 ->
+           let (ds2, rest2) = take_n (2 * int_of_string n2) r2 in
+           if rest2 <> [] then raise (Bad "outs tail 2");
+           (o1 call, Some { og_err = ioz c2; og_dials = pairs ds2; og_call = z_of_int 0 })
        | _ -> raise (Bad "outs tail"))
   | _ -> raise (Bad ("outs: " ^ String.concat " " t))
 
@@ -108,7 +113,20 @@ let parse_op (t : string list) (out : gout) : gop =
   | ["C"] -> GClose
   | _ -> raise (Bad ("op: " ^ String.concat " " t))
 
-type hist = { h_line : int; mutable h_events : gevent list }
+(* h_model: the model state after the events read so far (None: no object), only used to
+   supply the UNOBSERVABLE observation between the two updates of a UC line *)
+type hist = { h_line : int; mutable h_events : gevent list; mutable h_model : gst option }
+
+let split_bar (t : string list) : string list * string list =
+  let rec go acc = function
+    | "|" :: r -> (List.rev acc, r)
+    | x :: r -> go (x :: acc) r
+    | [] -> raise (Bad "UC without |") in
+  go [] t
+
+let advance (h : hist) (ev : gevent) =
+  h.h_events <- ev :: h.h_events;
+  h.h_model <- (match h.h_model with Some st -> Some (fst (gstep st ev.ge_op)) | None -> None)
 
 let parse_file path : hist list =
   let hs = ref [] in
@@ -116,13 +134,37 @@ let parse_file path : hist list =
     if String.length line > 0 && line.[0] <> '#' then begin
       match split_on ";" (tokens line) with
       | [opt; outt; obst] ->
-          let out = parse_outs outt in
-          let ev = { ge_op = parse_op opt out; ge_out = out; ge_obs = parse_obs obst } in
-          (match opt with
-           | "H" :: _ -> hs := { h_line = i + 1; h_events = [ev] } :: !hs
-           | _ -> (match !hs with
-                   | h :: _ -> h.h_events <- ev :: h.h_events
-                   | [] -> raise (Bad "event before H")))
+          let (out, out2) = parse_outs outt in
+          let obs = parse_obs obst in
+          (match opt, out2 with
+           | "H" :: _, _ ->
+               let ev = { ge_op = parse_op opt out; ge_out = out; ge_obs = obs } in
+               let st = (match ev.ge_op with
+                         | GUpdate (o, f, orc) ->
+                             let (s1, mo) = gupdate (ginit o) o f orc in
+                             if mo.og_err = Z0 then Some s1 else None
+                         | _ -> None) in
+               hs := { h_line = i + 1; h_events = [ev]; h_model = st } :: !hs
+           | "UC" :: r, Some o2 ->
+               (* two updates, expected to take effect in sequence.  The observation between
+                  them does not exist in the implementation (update 2 waits for gme.mu while
+                  update 1 runs): the event of update 1 carries the model's observation *)
+               (match !hs with
+                | h :: _ ->
+                    let (t1, t2) = split_bar r in
+                    let (op1, f1) = parse_opts t1 and (op2, f2) = parse_opts t2 in
+                    let g1 = GUpdate (op1, f1, List.map fst out.og_dials) in
+                    let mid = (match h.h_model with
+                               | Some st -> gobs_norm (gobserve (fst (gstep st g1)))
+                               | None -> obs) in
+                    advance h { ge_op = g1; ge_out = out; ge_obs = mid };
+                    advance h { ge_op = GUpdate (op2, f2, List.map fst o2.og_dials); ge_out = o2; ge_obs = obs }
+                | [] -> raise (Bad "event before H"))
+           | _ ->
+               let ev = { ge_op = parse_op opt out; ge_out = out; ge_obs = obs } in
+               (match !hs with
+                | h :: _ -> advance h ev
+                | [] -> raise (Bad "event before H")))
       | _ -> raise (Bad ("line " ^ string_of_int (i + 1)))
     end) (read_lines path);
   List.rev_map (fun h -> h.h_events <- List.rev h.h_events; h) !hs
